@@ -53,18 +53,19 @@ Proof.
 Qed.
 
 (* ---- the two loops as minima of lists *)
-Definition keepf (vm : IV) (mi i : nat) (v : IV) : bool := Nat.eqb i mi || @iv_overlap ROps vm v.
-Fixpoint kept (vm : IV) (mi : nat) (ops : list (IV * R)) (i : nat) : list R :=
+Definition keepf (b : R) (mi i : nat) (v : IV) : bool := negb (Nat.eqb i mi) && Rleb (fst v) b.
+Fixpoint kept (b : R) (mi : nat) (ops : list (IV * R)) (i : nat) : list R :=
   match ops with
   | [] => []
-  | (v, x) :: r => if keepf vm mi i v then x :: kept vm mi r (S i) else kept vm mi r (S i)
+  | (v, x) :: r => if keepf b mi i v then x :: kept b mi r (S i) else kept b mi r (S i)
   end.
 
-Lemma prune_loop_kept minf vm mi ops i first d :
-  @prune_loop ROps minf vm mi ops i first d = @slow_loop ROps minf (kept vm mi ops i) first d.
+Lemma prune_loop_kept b mi ops i d :
+  @prune_loop ROps Rmin b mi ops i d = lmin d (kept b mi ops i).
 Proof.
-  revert i first d. induction ops as [|[v x] r IH]; intros; cbn [prune_loop kept]; [reflexivity|].
-  unfold keepf. destruct (Nat.eqb i mi || iv_overlap vm v); cbn [slow_loop]; apply IH.
+  revert i d. induction ops as [|[v x] r IH]; intros; cbn [prune_loop kept lmin]; [reflexivity|].
+  unfold keepf. change (oleb ROps (fst v) b) with (Rleb (fst v) b).
+  destruct (negb (Nat.eqb i mi) && Rleb (fst v) b); cbn [lmin]; apply IH.
 Qed.
 
 Lemma slow_loop_false l d : @slow_loop ROps Rmin l false d = lmin d l.
@@ -104,46 +105,38 @@ Proof.
 Qed.
 
 (* ---- kept / dropped elements *)
-Lemma kept_sub vm mi ops i y : In y (kept vm mi ops i) -> In y (map snd ops).
+Lemma kept_sub b mi ops i y : In y (kept b mi ops i) -> In y (map snd ops).
 Proof.
   revert i; induction ops as [|[v x] r IH]; intros i; cbn [kept map snd]; [auto|].
-  destruct (keepf vm mi i v); [intros [<-|H]; [now left | right; eauto] | intros H; right; eauto].
+  destruct (keepf b mi i v); [intros [<-|H]; [now left | right; eauto] | intros H; right; eauto].
 Qed.
 
-Lemma kept_or_dropped vm mi ops i v x :
-  In (v, x) ops -> In x (kept vm mi ops i) \/ @iv_overlap ROps vm v = false.
+(* the operand at position j is the minimum-index operand, or it is folded in, or its box is beyond the bound *)
+Lemma kept_nth b mi (ops : list (IV * R)) i j : (j < length ops)%nat ->
+  (i + j = mi)%nat \/ In (snd (nth j ops (d0, 0))) (kept b mi ops i) \/
+  Rleb (fst (fst (nth j ops (d0, 0)))) b = false.
 Proof.
-  revert i; induction ops as [|[v' x'] r IH]; intros i; cbn [kept]; [intros []|].
-  intros [[= -> ->]|H].
-  - unfold keepf. destruct (iv_overlap vm v) eqn:E; [|now right]. rewrite orb_true_r. left; now left.
-  - destruct (IH (S i) H) as [H'|H']; [|now right]. left. destruct (keepf vm mi i v'); [now right | exact H'].
-Qed.
-
-Lemma kept_has_mi vm mi (pre ops : list (IV * R)) :
-  (mi >= length pre)%nat -> (mi < length pre + length ops)%nat ->
-  In (snd (nth (mi - length pre) ops (d0, 0))) (kept vm mi ops (length pre)).
-Proof.
-  revert pre. induction ops as [|[v x] r IH]; intros pre H1 H2; cbn [length] in *; [lia|].
-  cbn [kept]. unfold keepf. destruct (Nat.eqb (length pre) mi) eqn:E.
-  - apply Nat.eqb_eq in E. rewrite E, Nat.sub_diag. cbn. now left.
-  - apply Nat.eqb_neq in E. cbn [orb].
-    assert (Hm : (mi - length pre = S (mi - length (pre ++ [(v, x)])))%nat) by (rewrite app_length; cbn; lia).
-    rewrite Hm. cbn [nth].
-    assert (Hl : S (length pre) = length (pre ++ [(v, x)])) by (rewrite app_length; cbn; lia).
-    rewrite Hl. destruct (iv_overlap vm v); [right|]; apply IH; rewrite app_length; cbn; lia.
+  revert i j; induction ops as [|[v x] r IH]; intros i j Hj; cbn [length] in Hj; [lia|].
+  destruct j as [|j']; cbn [nth kept snd fst].
+  - unfold keepf. destruct (Nat.eqb i mi) eqn:E; cbn [negb andb].
+    + left. apply Nat.eqb_eq in E. lia.
+    + destruct (Rleb (fst v) b) eqn:E2; [right; left; now left | right; now right].
+  - destruct (IH (S i) j' ltac:(lia)) as [H|[H|H]].
+    + left; lia.
+    + right; left. destruct (keepf b mi i v); [now right | exact H].
+    + right; now right.
 Qed.
 
 Lemma evaluate_slow_lmin ops op1 rest : ops = op1 :: rest ->
   @evaluate_slow ROps Rmin ops = lmin (snd op1) (map snd rest).
 Proof. intros ->. unfold evaluate_slow. cbn [map]. apply slow_loop_true. Qed.
 
-(* ---- main theorem *)
-Theorem union_prune_eq (ops : list (IV * R)) :
-  ops <> [] ->
-  Forall iv_ok ops -> Forall lower_ok ops -> Forall upper_ok ops ->
+(* ---- main theorem: only the lower bound (C01: value >= distance to the own box) is needed *)
+Theorem union_prune_eq_strong (ops : list (IV * R)) :
+  ops <> [] -> Forall iv_ok ops -> Forall lower_ok ops ->
   @evaluate ROps false Rmin ops = @evaluate_slow ROps Rmin ops.
 Proof.
-  intros Hne Hiv Hlo Hup. unfold evaluate.
+  intros Hne Hiv Hlo. unfold evaluate.
   destruct ops as [|op1 rest] eqn:Eops; [congruence|]. rewrite <- Eops in *.
   pose proof (min_index_spec (map fst ops) [] (-1) 0%nat) as S.
   cbn [app length] in S.
@@ -155,45 +148,89 @@ Proof.
   { left; split; [reflexivity | lra]. }
   { rewrite Eops; discriminate. }
   rewrite map_length in Hlt.
+  change (o0 ROps) with 0. change (omul ROps) with Rmult.
+  match goal with |- context [nth mi ops ?dflt] => set (om := nth mi ops dflt) in * end. set (dm := snd om).
   rewrite prune_loop_kept.
-  set (vm := nth mi (map fst ops) (o0 ROps, o0 ROps)).
-  assert (Hvm : vm = fst (nth mi ops (d0, 0))).
-  { unfold vm. change (o0 ROps, o0 ROps) with (fst (d0, 0)). apply map_nth. }
-  set (om := nth mi ops (d0, 0)) in *.
+  rewrite (evaluate_slow_lmin ops op1 rest Eops).
   assert (Hom : In om ops) by (apply nth_In; exact Hlt).
-  pose proof (kept_has_mi vm mi [] ops) as Hk. cbn [length] in Hk. rewrite Nat.sub_0_r in Hk.
-  specialize (Hk ltac:(lia) ltac:(lia)). fold om in Hk.
-  change (kept (nth mi (map fst ops) (o0 ROps, o0 ROps)) mi ops 0) with (kept vm mi ops 0).
-  destruct (kept vm mi ops 0) as [|k ks] eqn:Ek; [destruct Hk|].
-  assert (Hms : map snd ops = snd op1 :: map snd rest) by (rewrite Eops; reflexivity).
-  rewrite (evaluate_slow_lmin ops op1 rest Eops). change (o0 ROps) with 0. rewrite slow_loop_true.
-  symmetry. apply lmin_eq with (xm := snd om).
-  - intros y Hy. rewrite <- Ek in Hy. apply kept_sub in Hy. rewrite Eops in Hy. exact Hy.
-  - exact Hk.
+  assert (Eom : om = nth mi ops (d0, 0)) by reflexivity.
+  symmetry. apply lmin_eq with (xm := dm).
+  - intros y [<-|Hy].
+    + assert (X : In dm (map snd ops)) by (apply in_map; exact Hom). rewrite Eops in X. exact X.
+    + apply kept_sub in Hy. rewrite Eops in Hy. exact Hy.
+  - now left.
   - intros y Hy0. assert (Hy : In y (map snd ops)) by (rewrite Eops; exact Hy0).
-    apply in_map_iff in Hy. destruct Hy as ([v x] & <- & Hin). cbn [snd].
-    destruct (kept_or_dropped vm mi ops 0 v x Hin) as [H|H]; [left; rewrite <- Ek; exact H|].
-    right.
-    (* dropped: v does not overlap vm, so lo_v > hi_m *)
-    rewrite Forall_forall in Hiv, Hlo, Hup.
-    pose proof (Hiv _ Hin) as I1. pose proof (Hiv _ Hom) as I2.
-    pose proof (Hlo _ Hin) as L1. pose proof (Hup _ Hom) as U2.
-    assert (Hle : fst vm <= fst v).
-    { rewrite Hvm. unfold vm in *. rewrite Hmd in Hmin.
-      replace (fst (fst om)) with (fst (nth mi (map fst ops) d0)).
-      - apply Hmin. apply in_map_iff. exists (v, x). auto.
-      - change d0 with (fst (d0, 0)). rewrite map_nth. reflexivity. }
-    destruct om as [[lom him] xm'] eqn:Eom. destruct v as [lo hi].
-    rewrite Hvm in H, Hle. cbn [fst snd] in *. unfold iv_ok, lower_ok, upper_ok in *; cbn [fst snd] in *.
-    unfold iv_overlap in H; cbn [fst snd] in H. change (oleb ROps) with Rleb in H.
-    apply andb_false_iff in H. destruct H as [H|H]; apply Rleb_false in H; [|lra].
-    destruct L1 as [L1a L1b].
-    destruct (Rle_dec x 0) as [Hx|Hx]; [specialize (L1a Hx); lra|].
-    assert (Hx' : 0 <= x) by lra. specialize (L1b Hx').
-    destruct U2 as [U2|U2]; [lra|]. nra.
+    apply in_map_iff in Hy. destruct Hy as (o & <- & Hin).
+    destruct (In_nth _ _ (d0, 0) Hin) as (j & Hj & Ej).
+    destruct (kept_nth (dm * dm) mi ops 0 j Hj) as [H|[H|H]].
+    + left; left. cbn in H. subst j. rewrite <- Ej. reflexivity.
+    + left; right. rewrite Ej in H. exact H.
+    + right. rewrite Ej in H. apply Rleb_false in H.
+      rewrite Forall_forall in Hlo. pose proof (Hlo _ Hin) as L.
+      destruct o as [[lo hi] x]. cbn [fst snd] in *. unfold lower_ok in L. destruct L as [La Lb].
+      destruct (Rle_dec x 0) as [Hx|Hx].
+      * specialize (La Hx). pose proof (Rle_0_sqr dm) as Q. unfold Rsqr in Q. lra.
+      * assert (Hx' : 0 <= x) by lra. specialize (Lb Hx').
+        destruct (Rle_dec dm x) as [|N]; [assumption|]. exfalso.
+        assert (x < dm) by lra. assert (x * x < dm * dm) by nra. lra.
+Qed.
+
+(* the statement with the hypotheses of the pinned algorithm (kept for the users of this file) *)
+Theorem union_prune_eq (ops : list (IV * R)) :
+  ops <> [] ->
+  Forall iv_ok ops -> Forall lower_ok ops -> Forall upper_ok ops ->
+  @evaluate ROps false Rmin ops = @evaluate_slow ROps Rmin ops.
+Proof. intros Hne Hiv Hlo _. now apply union_prune_eq_strong. Qed.
+
+(* the index found by the first loop is a valid index *)
+Lemma min_index_range (vs : list IV) i md mi0 : (mi0 < i)%nat ->
+  (snd (@min_index ROps vs i md mi0) < i + length vs)%nat.
+Proof.
+  revert i md mi0; induction vs as [|v r IH]; intros i md mi0 Hlt; cbn [min_index length snd]; [lia|].
+  destruct (_ || _); (eapply Nat.lt_le_trans; [apply IH; lia | lia]).
+Qed.
+Lemma min_index_valid (ops : list (IV * R)) : ops <> [] ->
+  (snd (@min_index ROps (map fst ops) 0 (oneg ROps (o1 ROps)) 0%nat) < length ops)%nat.
+Proof.
+  intros Hne. destruct ops as [|[v x] r]; [congruence|]. cbn [map fst min_index].
+  change (oltb ROps (oneg ROps (o1 ROps)) (o0 ROps)) with (Rltb (-1) 0).
+  assert (Rltb (-1) 0 = true) as E by (apply Rltb_true; lra). rewrite E. cbn [orb].
+  pose proof (min_index_range (map fst r) 1 (fst v) 0 ltac:(lia)) as G. rewrite map_length in G. cbn [length]. lia.
+Qed.
+
+(* the pruned value is the value of one of the operands *)
+Lemma evaluate_in (ops : list (IV * R)) : ops <> [] -> In (@evaluate ROps false Rmin ops) (map snd ops).
+Proof.
+  intros Hne. unfold evaluate. pose proof (min_index_valid ops Hne) as Hlt.
+  match goal with |- context [@min_index ?a ?b ?c ?d ?e] =>
+    change (@min_index ROps (map fst ops) 0 (oneg ROps (o1 ROps)) 0%nat) with (@min_index a b c d e) in Hlt;
+    destruct (@min_index a b c d e) as [md mi] eqn:Emi end.
+  cbn [snd] in Hlt.
+  cbv beta iota zeta. change (o0 ROps) with 0. change (omul ROps) with Rmult.
+  rewrite prune_loop_kept.
+  match goal with |- In (lmin ?d ?l) _ => destruct (lmin_in d l) as [->|Hin]; [|eapply kept_sub; exact Hin] end.
+  apply in_map. apply nth_In. exact Hlt.
 Qed.
 
 (* ---- blends: the repaired Evaluate does not prune *)
 Theorem union_blend_eq minf (ops : list (IV * R)) :
   @evaluate ROps true minf ops = @evaluate_slow ROps minf ops.
 Proof. reflexivity. Qed.
+
+(* ---- the pinned algorithm (pruning by interval overlap) needed more than the lower bound:
+   an operand without a solid point in its box breaks it *)
+Definition pinned_witness : list (IV * R) := [((0, 1), 5); ((4, 9), 5 / 2)].
+Lemma pinned_witness_hyps : Forall iv_ok pinned_witness /\ Forall lower_ok pinned_witness.
+Proof. unfold pinned_witness, iv_ok, lower_ok. split; repeat constructor; cbn; intros; lra. Qed.
+Theorem union_prune_pinned_refuted :
+  @evaluate_pinned ROps Rmin pinned_witness = 5 /\ @evaluate_slow ROps Rmin pinned_witness = 5 / 2.
+Proof.
+  assert (B1 : Rltb (- (1)) 0 = true) by (apply Rltb_true; lra).
+  assert (B2 : Rltb 0 0 = false) by (apply Rltb_false; lra).
+  assert (B3 : Rltb 4 0 = false) by (apply Rltb_false; lra).
+  assert (B4 : Rleb 4 1 = false) by (apply Rleb_false; lra).
+  split.
+  - unfold evaluate_pinned, pinned_witness. cbn. rewrite B1, B2, B3. cbn.
+    unfold iv_overlap. cbn. rewrite B4. cbn. reflexivity.
+  - unfold evaluate_slow, pinned_witness. cbn. unfold Rmin. destruct (Rle_dec 5 (5 / 2)); lra.
+Qed.
